@@ -1,31 +1,38 @@
 #!/bin/bash
-# re-run every filed seeded change against the current checks in a scratch worktree (never /repo): writes seeded/REGRESSION.md
-# exit 1 if a seed is no longer caught
+# re-run every filed seeded change against the current checks, each in its own scratch worktree (never /repo), JOBS at a time (default 3):
+# writes seeded/REGRESSION.md; exit 1 if a seed is no longer caught.   usage: tools/seeds_regress.sh [seed-name-glob]
 cd "$(dirname "$0")/.."
-V=$PWD
-out=seeded/REGRESSION.md
-wt=$(mktemp -d /tmp/seedregress.XXXX)
-git -C /repo worktree add --detach "$wt/repo" HEAD >/dev/null 2>&1
-echo "| seed | property | check exit | violations | first failed check |" > $out
-echo "|---|---|---|---|---|" >> $out
-bad=0
-for d in seeded/*/; do
-  name=$(basename $d); pid=${name%%-*}
-  [ -f $d/patch.diff ] || continue
-  if ! git -C "$wt/repo" apply --check $V/$d/patch.diff 2>/dev/null; then echo "| $name | $pid | patch does not apply | | |" >> $out; bad=1; continue; fi
-  git -C "$wt/repo" apply $V/$d/patch.diff
-  VERIF_REPO="$wt/repo" VERIF_OUT_DIR="$wt/out" timeout 3000 ./check $pid > $d/check_output.txt 2>&1; rc=$?
-  git -C "$wt/repo" checkout -q -- .
-  v=$(grep -c "^VIOLATION" $d/check_output.txt); f=$(grep -m1 "failed check" $d/check_output.txt | sed 's/^ *failed check: //' | cut -c1-120)
-  echo "| $name | $pid | $rc | $v | $f |" >> $out
-  python3 - "$d/meta.json" "$rc" "$v" "$f" <<'PY'
+export V=$PWD
+glob=${1:-*}
+one() {
+  d=$1; name=$(basename $d); pid=${name%%-*}
+  [ -f $V/$d/patch.diff ] || exit 0
+  wt=$(mktemp -d /tmp/seedregress.XXXX)
+  git -C /repo worktree add --detach "$wt/repo" HEAD >/dev/null 2>&1
+  if ! git -C "$wt/repo" apply --check $V/$d/patch.diff 2>/dev/null; then rc="patch does not apply"; v=0; f=""; else
+    git -C "$wt/repo" apply $V/$d/patch.diff
+    (cd $V && VERIF_REPO="$wt/repo" VERIF_OUT_DIR="$wt/out" VERIF_JOBS=${VERIF_JOBS:-8} timeout 3000 ./check $pid > $V/$d/check_output.txt 2>&1); rc=$?
+    v=$(grep -c "^VIOLATION" $V/$d/check_output.txt); f=$(grep -m1 "failed check" $V/$d/check_output.txt | sed 's/^ *failed check: //' | cut -c1-120)
+  fi
+  git -C /repo worktree remove --force "$wt/repo"; rm -rf "$wt"
+  python3 - "$V/$d/meta.json" "$rc" "$v" "$f" <<'PY'
 import json, sys
 p, rc, v, f = sys.argv[1:]
 m = json.load(open(p)); m['check'] = {'exit': rc, 'violation_lines': int(v), 'first_failed_check': f}; m['detected'] = rc == '1'
 json.dump(m, open(p, 'w'), indent=1)
 PY
-  [ "$rc" = "1" ] || bad=1
   echo "$name rc=$rc v=$v"
-done
-git -C /repo worktree remove --force "$wt/repo"; rm -rf "$wt"
-exit $bad
+}
+export -f one
+ls -d seeded/$glob/ | xargs -P ${JOBS:-3} -I{} bash -c 'one {}'
+python3 - <<'PY'
+import json, glob, os, sys
+rows = []
+bad = 0
+for p in sorted(glob.glob('seeded/*/meta.json')):
+    m = json.load(open(p)); c = m.get('check', {})
+    rows.append('| %s | %s | %s | %s | %s |' % (m.get('name'), m.get('property'), c.get('exit'), c.get('violation_lines'), str(c.get('first_failed_check', '')).replace('|', '\\|')[:120]))
+    bad |= (str(c.get('exit')) != '1')
+open('seeded/REGRESSION.md', 'w').write('| seed | property | check exit | violations | first failed check |\n|---|---|---|---|---|\n' + '\n'.join(rows) + '\n')
+sys.exit(1 if bad else 0)
+PY
